@@ -17,7 +17,7 @@ import (
 // main package reachable from the root names and writes them *verbatim* (source
 // text of the working tree) into one Go file.  Only import paths are rewritten
 // (rewrite map), so function bodies are byte-identical to the code under test.
-func Slice(lc LoadConfig, roots []string, rewrite map[string]string, pkgName string) ([]byte, error) {
+func Slice(lc LoadConfig, roots []string, rewrite map[string]string, pkgName string, skipBodiless bool) ([]byte, error) {
 	cfg := &packages.Config{
 		Mode: packages.NeedName | packages.NeedFiles | packages.NeedCompiledGoFiles | packages.NeedImports |
 			packages.NeedTypes | packages.NeedTypesSizes | packages.NeedSyntax | packages.NeedTypesInfo,
@@ -220,6 +220,9 @@ func Slice(lc LoadConfig, roots []string, rewrite map[string]string, pkgName str
 	for _, di := range list {
 		switch nd := di.node.(type) {
 		case *ast.FuncDecl:
+			if raw := text(di.start, di.end); nd.Body == nil && skipBodiless && (!strings.Contains(raw, "go:linkname") || strings.Contains(raw, " llgo.") || strings.Contains(raw, " C.")) {
+				continue // provided by a stand-in file of the replay package
+			}
 			t := text(di.start, di.end)
 			if nd.Body != nil && nd.Doc != nil {
 				// a function with a body that is *pushed* to another package's
